@@ -52,6 +52,10 @@ type Case struct {
 	// otherwise under the identity order AND every other order is a harness problem, not a verdict).
 	MustReject bool `json:"mustReject,omitempty"`
 	MustAccept bool `json:"mustAccept,omitempty"`
+	// ErrNamesFilesInOrder: the (single) error legitimately names two files in the order they were
+	// added ("defined more than once (in a.soy and b.soy)"): across insertion orders only the verdict
+	// is compared, not the text.
+	ErrNamesFilesInOrder bool `json:"errNamesFilesInOrder,omitempty"`
 	// NErr is the number of independent planted errors.
 	NErr int `json:"nerr"`
 	// Collide: some message has placeholders with colliding base names.
